@@ -337,7 +337,10 @@ class Kernel:
             _LOGGER.error("ignoring invalid shell message: %s", err)
             return
         # _LOGGER.debug("shell received %s: %s", msg.get('header', {}).get('msg_type', 'UNKNOWN'), msg)
-        self.parent_header = msg["header"]
+        if msg["header"]["msg_type"] == "execute_request":
+            # stdout belongs to the cell being executed; a request of another kind (eg, from a second
+            # connection while the cell is still running) must not redirect it
+            self.parent_header = msg["header"]
 
         content = {
             "execution_state": "busy",
